@@ -7,6 +7,7 @@ occur in input-only path atoms come from a (non-linearised) z3 query; everything
 seeded generator.
 """
 import random
+import time
 from fractions import Fraction
 import numpy as np
 import z3
@@ -30,7 +31,7 @@ def _holds(a, env):
     return {'==': v == 0, '!=': v != 0, '<': v < 0, '<=': v <= 0}[a.op]
 
 
-def instantiate(eng, seed=0, n=4, lo=-3, hi=3, pin_zero=True):
+def instantiate(eng, seed=0, n=4, lo=-3, hi=3, pin_zero=True, budget_s=40.0):
     """list of up to n environments {var index -> Fraction/int} for all input variables"""
     rng = random.Random(seed)
     imodel = eng.int_model()
@@ -70,7 +71,10 @@ def instantiate(eng, seed=0, n=4, lo=-3, hi=3, pin_zero=True):
             zero_forced = set(prover.forced_zero_inputs(eng, rvars))
         except Exception:
             zero_forced = set()
+    t_start = time.time()
     for k in range(n * 3):
+        if time.time() - t_start > budget_s:
+            break
         env = dict(imodel)
         for v in zero_forced:
             env[v] = 0
@@ -83,7 +87,7 @@ def instantiate(eng, seed=0, n=4, lo=-3, hi=3, pin_zero=True):
         if constrained:
             zv = {v: z3.Real('x!' + VARS[v]) for v in constrained}
             s = z3.Solver()
-            s.set('timeout', 8000)
+            s.set('timeout', 4000)
             s.set('random_seed', seed + k)
             for v in env:
                 if v not in zv:
@@ -96,7 +100,9 @@ def instantiate(eng, seed=0, n=4, lo=-3, hi=3, pin_zero=True):
                 s.add({'==': e == 0, '!=': e != 0, '<': e < 0, '<=': e <= 0}[a.op])
             # try to pin some constrained variables to random values to get generic witnesses
             order = [v for v in constrained if v not in aux]; rng.shuffle(order)
-            for v in order:
+            for v in order[:8]:
+                if time.time() - t_start > budget_s:
+                    break
                 val = Fraction(rng.randint(1, 9) * rng.choice((-1, 1)), rng.choice((1, 2, 3)))
                 s.push()
                 s.add(zv[v] == z3.RealVal(str(val)))
